@@ -21,6 +21,8 @@
 (*         authenticated as somebody else (swarm_dial.go dialAddr/dialPeer)*)
 (* Part U  the expected-peer rule crossed with ROLE at the upgrader and at   *)
 (*         the TCP transport's Dial (server role of a simultaneous connect) *)
+(* Part F  faults inside the handshake (I/O errors, EOF, deadline, panic,  *)
+(*         cancellation at every I/O index; failing user callbacks)        *)
 (* Part H  the QUIC transport's own Dial contract: plain dial and the      *)
 (*         hole-punch path where an ACCEPTED connection completes the dial *)
 (***************************************************************************)
@@ -598,4 +600,32 @@ NextU == UpgradeU
 \* reported peer is always the one that answered
 ExpectU == (st.part = "U" /\ st.done /\ st.ok) => (st.rem = st.ans /\ (st.named # NoID => st.rem = st.named))
 ReachServerNamedU == ~(st.part = "U" /\ st.done /\ st.ok /\ st.role = "server" /\ st.named = "P")
+(***************************************************************************)
+(*                                PART F                                   *)
+(***************************************************************************)
+\* Faults INSIDE a handshake, next to the wire edits: on one side of an otherwise honest handshake the
+\* underlying connection fails at one of its Reads/Writes (the replay enumerates EVERY I/O index of that
+\* side's handshake, counted on a dry run), or a user-supplied callback the transport invokes fails
+\* (Noise EarlyDataHandler Send / Received of that side's role).  Kinds: the operation returns an error,
+\* EOF / closed pipe, a deadline error, panics, or the caller's context is cancelled while it blocks.
+\* Every such point lies before the side has finished authenticating and reporting, so a faulted side
+\* never completes: the call returns an error (a propagating panic is acceptable too) - whatever peer
+\* was named.  (TLS has no user-supplied callback inside the handshake: VerifyPeerCertificate and
+\* GetConfigForClient are the transport's own.)
+FKinds(point) == CASE point = "io"   -> {"error", "eof", "deadline", "panic", "cancel"}
+                   [] point = "send" -> {"panic"}
+                   [] OTHER          -> {"error", "panic"}
+InitF ==
+  \E proto \in {"noise", "tls"}, side \in {"client", "server"}, named \in {"match", "empty"} :
+    \E point \in (IF proto = "noise" THEN {"io", "send", "received"} ELSE {"io"}) : \E kind \in FKinds(point) :
+      /\ st = [part |-> "F", proto |-> proto, side |-> side, named |-> named, point |-> point, kind |-> kind,
+               done |-> FALSE, ok |-> FALSE]
+      /\ op = [name |-> "startF"]
+FaultF ==
+  /\ ~st.done
+  /\ LET ok == Variant = "panicdone" /\ st.kind = "panic" IN      \* broken: a crashed handshake counts as done
+     /\ st' = [st EXCEPT !.done = TRUE, !.ok = ok]
+     /\ op' = [name |-> "fault", ok |-> ok]
+NextF == FaultF
+FaultFailsF == (st.part = "F" /\ st.done) => ~st.ok
 =============================================================================
